@@ -23,7 +23,7 @@ Sig(r) ==
          "cls|chain=" \o Cat([j \in 1..Len(r.scn.chain) |-> Abbrev(r.scn.chain[j])]) \o "|marker=" \o TF(r.scn.marker)
          \o "|seen=" \o TF(r.scn.seen) \o "|op=" \o r.scn.op \o "|remote=" \o TF(r.scn.remote)
     [] r.scn.t = "leaf" ->
-         "leaf|kind=" \o r.scn.kind \o "|item=" \o r.scn.item \o "|remote=" \o TF(r.scn.remote) \o "|after=" \o r.scn.after
+         "leaf|kind=" \o r.scn.kind \o "|item=" \o r.scn.item \o "|remote=" \o TF(r.scn.remote) \o "|after=" \o r.scn.after \o "|proto=" \o r.scn.pclass
     [] OTHER ->
          "graph|op=" \o r.scn.op \o "|remote=" \o TF(r.scn.remote) \o "|top=" \o r.scn.g[1].kind
          \o "|marker=" \o TF(r.scn.marker) \o "|seen=" \o TF(r.scn.seen)
